@@ -12,6 +12,7 @@ import VotelibProofs.Lemmas.C12Spav
 import VotelibProofs.Lemmas.C12JR
 import VotelibProofs.Lemmas.C12Score
 import VotelibProofs.Lemmas.C12Star
+import VotelibProofs.Lemmas.C12Trunc
 import VotelibProofs.Lemmas.C12MJ
 import VotelibModel.Gen.Quota
 namespace VL.C12
@@ -346,6 +347,74 @@ theorem score_eq_spec (cfg : Cfg) (votes : SProfile) (n : Nat) :
 example : aggregateOne .medianLow [(5, 3), (2, 2), (3, 1)] = .ok 3 := by decide +kernel
 example : aggregateOne .mean [(5, 1), (2, 2)] = .ok 3 := by decide +kernel
 example : aggregateOne .medianLow [] = .error (.other "StatisticsError") := by decide +kernel
+
+/-- the sorted grade list without its `c` lowest and `c` highest entries -/
+def trimmed (l : List Rat) (c : Nat) : List Rat := ((l.drop c).reverse.drop c).reverse
+
+/-- **Truncation equals its definition.**  Without an unscored value and with enough grades (`min_count`), the
+    corrected grade dict of a candidate — after `_subtract_lowest` from the bottom and from the top with the configured
+    cutoff `c` (a count, or `int(n_votes · fraction)`) — expands to exactly the candidate's sorted grades without the `c`
+    lowest and the `c` highest; hence every aggregate is the truncated mean / sum / median.  Hypotheses: the grade dict
+    has distinct keys and non-negative counts (true of every dict `corrected_scores` builds). -/
+theorem score_truncation_eq_spec (cfg : Cfg) (hU : cfg.unscored = .none) (cs : CScores) (nVotes : Int)
+    (hmin : ¬ totalCount cs < cfg.minCount) (hnd : (ckeys cs).Nodup) (hpos : ∀ p ∈ cs, 0 ≤ p.2) (c : Nat)
+    (hc : match cfg.trunc with
+      | .off => False
+      | .frac r => Py.pyInt ((((if nVotes ≠ 0 then nVotes else totalCount cs) : Int) : Rat) * r) = (c : Int)
+      | .count k => k = c) :
+    ∃ cs', correctOne cfg cs nVotes = .ok cs' ∧
+      sortR (expand cs') = trimmed (sortR (expand cs)) c ∧
+      ∀ fn, aggregateOne fn cs' = aggFn fn (trimmed (sortR (expand cs)) c) := by
+  have key := truncation_spec cs hnd hpos c
+  simp only at key
+  refine ⟨subtractLowest (subtractLowest cs (sortR (cs.map (·.1))) c) (sortR (cs.map (·.1))).reverse c, ?_, key, ?_⟩
+  · unfold correctOne
+    simp only [hU]
+    rw [if_neg hmin]
+    cases ht : cfg.trunc with
+    | off => rw [ht] at hc; exact absurd hc id
+    | frac r =>
+      rw [ht] at hc
+      simp only at hc
+      simp only [hc, bind, Except.bind, pure, Except.pure]
+    | count k =>
+      rw [ht] at hc
+      simp only at hc
+      subst hc
+      rfl
+  · intro fn
+    unfold aggregateOne
+    rw [aggFn_perm fn (sortR_perm _).symm, key]
+    rfl
+
+example : (correctOne { fn := .mean, unscored := .none, minCount := 0, trunc := .count 1, bottom := 0 }
+    [(5, 2), (1, 1), (3, 2)] 5).map expand = .ok [5, 3, 3] := by decide +kernel
+
+/-- **Unscored value.**  With `unscored_value = u` (a number) every voter who did not grade the candidate counts as one
+    grade `u`: the corrected dict holds `n_votes - n_scores` more grades `u` and is otherwise unchanged. -/
+theorem score_unscored_eq_spec (cfg : Cfg) (u : Rat) (hU : cfg.unscored = .value u) (hT : cfg.trunc = .off)
+    (cs : CScores) (nVotes : Int) (hmin : ¬ totalCount cs < cfg.minCount) :
+    ∃ cs', correctOne cfg cs nVotes = .ok cs' ∧
+      ∀ k, getCount cs' k = getCount cs k + (if k = u then nVotes - totalCount cs else 0) := by
+  refine ⟨setCount cs u (nVotes - totalCount cs + getCount cs u), ?_, ?_⟩
+  · unfold correctOne
+    simp only [hU, hT]
+    rw [if_neg hmin]
+    rfl
+  · intro k
+    rw [getCount_setCount]
+    by_cases hk : k = u
+    · subst hk; simp only [if_true]; omega
+    · simp [hk]
+
+/-- **Minimum count.**  A candidate graded by fewer than `min_count` voters gets `min_count` grades `bottom_value`
+    (whatever else is configured) -/
+theorem score_min_count_eq_spec (cfg : Cfg) (cs : CScores) (nVotes : Int) (hmin : totalCount cs < cfg.minCount) :
+    correctOne cfg cs nVotes = .ok [(cfg.bottom, cfg.minCount)] := by
+  unfold correctOne
+  simp only
+  rw [if_pos hmin]
+  rfl
 
 /-! ### Majority judgment -/
 
